@@ -111,6 +111,22 @@ var checkC18 = def("C18/deterministic", func(c detCase) error {
 	if r5, _ := runSearch(s2, bb.Fork(), c.Main.Depth); !r1.equal(r5) {
 		return fmt.Errorf("%s: with Zobrist seed %d the search gives %v, with seed %d %v", where, c.SeedB, r5, c.SeedA, r1)
 	}
+	// (4b) a search restricted to a line (search.Context.Ponder), repeated with the very same context
+	if line := ponderLine(ba, g, 1+int(uint64(c.SeedB)%2), int(uint64(c.SeedB)>>8%64)); len(line) > 0 {
+		sctx := &search.Context{TT: search.NoTranspositionTable{}, Ponder: append([]board.Move(nil), line...)}
+		run := func() (searchOut, error) {
+			n, sc, pv, err := s2.Search(context.Background(), sctx, ba.Fork(), c.Main.Depth)
+			return searchOut{n, sc, pvText(pv)}, err
+		}
+		ra, erra := run()
+		rb, errb := run()
+		if erra != nil || errb != nil || !ra.equal(rb) {
+			return fmt.Errorf("%s: restricted to the line %s, the same call with the same context gives %v (%v), then %v (%v)", where, pvText(line), ra, erra, rb, errb)
+		}
+		if !samePV(sctx.Ponder, line) {
+			return fmt.Errorf("%s: a search restricted to the line %s changed the caller's context: the line is now %s", where, pvText(line), pvText(sctx.Ponder))
+		}
+	}
 	// (5) alongside other searches on other engines (own search objects), in parallel goroutines
 	var wg sync.WaitGroup
 	var rmain searchOut
